@@ -25,6 +25,8 @@ Mutations(n) ==
     {[m |-> "dup", hdu |-> h] : h \in 0 .. n + 1} \cup
     {[m |-> "resize", hdu |-> h, delta |-> k] : h \in 0 .. n + 1, k \in {-3, -1, 1, 3, 24}} \cup
     {[m |-> "setknot", dim |-> d, idx |-> j, cls |-> c] : d \in 0 .. n - 1, j \in {0, 2, 100}, c \in {"nan", "inf", "-inf", "descending", "equal"}} \cup
+    \* still finite and non-decreasing, hence accepted: the fully supported range collapsed to one point / every knot equal
+    {[m |-> "setknot", dim |-> d, idx |-> 0, cls |-> c] : d \in 0 .. n - 1, c \in {"flat-support", "all-equal"}} \cup
     {[m |-> "truncate", blocks |-> b, partial |-> p] : b \in 0 .. 4, p \in {0, 1, 1440}} \cup
     {[m |-> "flip", region |-> r, which |-> w] : r \in {"header", "data"}, w \in 0 .. 5} \cup
     {[m |-> "foreign", kind |-> k] : k \in {"zero-dim-primary", "no-spline-keys", "table-extension", "empty-file", "garbage"}}
